@@ -4,9 +4,9 @@ package main
 // float, C06-C09), bit-depth arithmetic (C16), Frequency (C17), ChannelLength (C20).
 
 import (
+	"bufio"
 	"fmt"
 	"io"
-	"bufio"
 	"math"
 	"sort"
 	"time"
@@ -483,7 +483,7 @@ func genC16(g *Kern, r *Rng, tier string) {
 		// values around this depth's bounds
 		for d := int64(-3); d <= 3; d++ {
 			if b >= 1 {
-				vals = append(vals, uint64(int64(1)<<(b-1))+uint64(d), uint64(-(int64(1) << (b - 1)))+uint64(d), (uint64(1)<<(b%64))+uint64(d))
+				vals = append(vals, uint64(int64(1)<<(b-1))+uint64(d), uint64(-(int64(1)<<(b-1)))+uint64(d), (uint64(1)<<(b%64))+uint64(d))
 			}
 		}
 		for _, v := range vals {
